@@ -243,3 +243,148 @@ Proof.
   - intros s b Hs Hb Hq m f. simpl in Hq. apply andb_true_iff in Hq. simpl. rewrite (Hb (proj2 Hq)). apply (Hs (proj1 Hq)).
 Qed.
 End Quiet.
+
+(* ---- list lemmas --------------------------------------------------------------------------------- *)
+Lemma find_setup_split tg : forall b pre a o i fs post,
+  find_setup tg b = Some (pre, (a, o, i, fs), post) -> b = pre ++ SSetup a o i fs :: post.
+Proof.
+  induction b as [|s b IH]; intros pre a o i fs post H; [discriminate|].
+  assert (Hgen : match find_setup tg b with
+                 | Some (pre0, x, post0) => Some (s :: pre0, x, post0)
+                 | None => None
+                 end = Some (pre, (a, o, i, fs), post) -> s :: b = pre ++ SSetup a o i fs :: post).
+  { destruct (find_setup tg b) as [[[pre0 x] post0]|] eqn:E; [|discriminate]. intros H'. inversion H'; subst.
+    simpl. f_equal. apply IH. reflexivity. }
+  destruct s; try (exact (Hgen H)).
+  simpl in H. destruct (Nat.eqb out tg).
+  - inversion H; subst. reflexivity.
+  - exact (Hgen H).
+Qed.
+
+Lemma find_prev_split a : forall r bt po pi pfs rest,
+  find_prev_setup a r = Some (bt, (po, pi, pfs), rest) -> r = bt ++ SSetup a po pi pfs :: rest.
+Proof.
+  induction r as [|s r IH]; intros bt po pi pfs rest H; [discriminate|].
+  assert (Hgen : (if stmt_sef s
+                  then match find_prev_setup a r with
+                       | Some (between, x, rest0) => Some (s :: between, x, rest0)
+                       | None => None
+                       end
+                  else None) = Some (bt, (po, pi, pfs), rest) -> s :: r = bt ++ SSetup a po pi pfs :: rest).
+  { destruct (stmt_sef s); [|discriminate].
+    destruct (find_prev_setup a r) as [[[b0 x] r0]|] eqn:E; [|discriminate]. intros H'. inversion H'; subst.
+    simpl. f_equal. apply IH. reflexivity. }
+  destruct s; try (exact (Hgen H)).
+  simpl in H. destruct (Nat.eqb a0 a) eqn:Ea; [|discriminate].
+  apply Nat.eqb_eq in Ea. subst a0. inversion H; subst. reflexivity.
+Qed.
+
+Lemma last_binding_In2 f fs : forall v, last_binding f fs = Some v -> In (f, v) fs.
+Proof.
+  induction fs as [|[g w] fs IH]; intros v; simpl; [discriminate|].
+  destruct (last_binding f fs) as [x|] eqn:E.
+  - intros H. inversion H; subst. right. apply IH. reflexivity.
+  - destruct (Nat.eqb g f) eqn:Eg; [|discriminate]. intros H. inversion H; subst.
+    apply Nat.eqb_eq in Eg. subst. left. reflexivity.
+Qed.
+
+Lemma mem_nat_app x l1 l2 : mem_nat x (l1 ++ l2) = mem_nat x l1 || mem_nat x l2.
+Proof. unfold mem_nat. apply existsb_app. Qed.
+
+Lemma nodup_nat_snoc l f : nodup_nat l = true -> mem_nat f l = false -> nodup_nat (l ++ [f]) = true.
+Proof.
+  induction l as [|x l IH]; intros Hn Hf; [reflexivity|].
+  simpl in Hn. apply andb_true_iff in Hn. destruct Hn as [Hx Hn].
+  simpl. rewrite mem_nat_app. apply Bool.negb_true_iff in Hx. rewrite Hx. simpl.
+  unfold mem_nat in Hf. simpl in Hf. apply orb_false_iff in Hf. destruct Hf as [Hfx Hf].
+  rewrite Nat.eqb_sym, Hfx. simpl. apply IH; [exact Hn|exact Hf].
+Qed.
+
+Lemma keys_map_set f v s :
+  map fst (map (fun gv : field * val => if Nat.eqb (fst gv) f then (f, v) else gv) s) = map fst s.
+Proof.
+  induction s as [|[g w] s IH]; [reflexivity|]. simpl. rewrite IH. f_equal.
+  destruct (Nat.eqb g f) eqn:E; [apply Nat.eqb_eq in E; subst; reflexivity|reflexivity].
+Qed.
+
+Lemma st_set_keys_nodup f v s : nodup_nat (map fst s) = true -> nodup_nat (map fst (st_set f v s)) = true.
+Proof.
+  intros Hn. unfold st_set. destruct (st_has f s) eqn:Eh.
+  - rewrite keys_map_set. exact Hn.
+  - rewrite map_app. simpl. apply nodup_nat_snoc; [exact Hn|].
+    apply mem_nat_false. intros Hin. apply in_map_iff in Hin. destruct Hin as [[g w] [E Hin]]. simpl in E. subst g.
+    exact (st_has_false_notin f s Eh w Hin).
+Qed.
+
+Lemma st_update_keys_nodup fs : forall s, nodup_nat (map fst s) = true -> nodup_nat (map fst (st_update s fs)) = true.
+Proof.
+  induction fs as [|[f v] fs IH]; intros s Hn; [exact Hn|]. simpl. apply IH. apply st_set_keys_nodup. exact Hn.
+Qed.
+
+Lemma nodup_keys_lb s : nodup_nat (map fst s) = true -> forall f, last_binding f s = st_lookup f s.
+Proof.
+  induction s as [|[g w] s IH]; intros Hn f; [reflexivity|].
+  simpl in Hn. apply andb_true_iff in Hn. destruct Hn as [Hg Hn].
+  apply Bool.negb_true_iff in Hg. apply mem_nat_false in Hg.
+  rewrite last_binding_cons. cbn [st_lookup]. rewrite (IH Hn f).
+  destruct (Nat.eqb g f) eqn:E.
+  - apply Nat.eqb_eq in E. subst g. destruct (st_lookup f s) as [x|] eqn:El; [|reflexivity].
+    exfalso. apply Hg. apply in_map_iff. exists (f, x). split; [reflexivity|apply st_lookup_In; exact El].
+  - destruct (st_lookup f s); reflexivity.
+Qed.
+
+Lemma lb_merged pfs fs f :
+  last_binding f (st_update (st_update [] pfs) fs)
+  = match last_binding f fs with Some v => Some v | None => last_binding f pfs end.
+Proof.
+  rewrite nodup_keys_lb by (apply st_update_keys_nodup; apply st_update_keys_nodup; reflexivity).
+  rewrite !st_lookup_update. simpl. destruct (last_binding f fs); [reflexivity|]. destruct (last_binding f pfs); reflexivity.
+Qed.
+
+Lemma vals_avoid_spec fs ds f v : vals_avoid fs ds = true -> In (f, v) fs -> ~ In v ds.
+Proof.
+  unfold vals_avoid. rewrite forallb_forall. intros H Hin. specialize (H _ Hin). simpl in H.
+  apply Bool.negb_true_iff in H. apply mem_nat_false in H. exact H.
+Qed.
+
+(* ---- MergeSetupOps -------------------------------------------------------------------------------- *)
+Lemma R_to_Ra a m m' : R m m' -> Ra a m m'.
+Proof. intros [He [Hr [Hn Ht]]]. repeat split; try assumption. intros b f _. apply Hr. Qed.
+
+Lemma merge_g_here_sound orc o' tg b b' :
+  merge_g_here o' tg b = Some b' -> forall m m', R m m' -> R (exec_block orc b m) (exec_block orc b' m').
+Proof.
+  unfold merge_g_here. intros H m m' HR.
+  destruct (find_setup tg b) as [[[pre [[[a o] i] fs]] post]|] eqn:Ef; [|discriminate].
+  destruct (find_prev_setup a (rev pre)) as [[[bt_rev [[po pi] pfs]] rest_rev]|] eqn:Ep; [|discriminate].
+  destruct (quiet_block a (rev bt_rev) && vals_avoid pfs (block_binds (rev bt_rev))) eqn:Eg; [|discriminate].
+  inversion H; subst b'. clear H. apply andb_true_iff in Eg. destruct Eg as [Hq Hv].
+  apply find_setup_split in Ef. apply find_prev_split in Ep.
+  assert (Hpre : pre = rev rest_rev ++ SSetup a po pi pfs :: rev bt_rev).
+  { rewrite <- (rev_involutive pre). rewrite Ep. rewrite rev_app_distr. simpl. rewrite <- app_assoc. reflexivity. }
+  subst b. rewrite Hpre. set (between := rev bt_rev) in *.
+  rewrite <- !app_assoc. cbn [app]. rewrite !exec_block_app. cbn [exec_block].
+  rewrite !exec_block_app. cbn [exec_block exec_stmt].
+  (* common prefix *)
+  pose proof (same_block orc (rev rest_rev) m m' HR) as HR1.
+  set (m1 := exec_block orc (rev rest_rev) m) in *. set (m1' := exec_block orc (rev rest_rev) m') in *.
+  (* prev executed on the left only *)
+  assert (HRa : Ra a (exec_setup a pfs m1) m1').
+  { destruct HR1 as [He [Hr [Hn Ht]]]. repeat split; simpl; try assumption.
+    intros b f Hb. rewrite upd_other by exact Hb. apply Hr. }
+  pose proof (quiet_Ra_block orc a between Hq _ _ HRa) as HRa2.
+  set (m3 := exec_block orc between (exec_setup a pfs m1)) in *.
+  set (m3' := exec_block orc between m1') in *.
+  apply same_block.
+  destruct HRa2 as [He3 [Hn3 [Ht3 Hr3]]].
+  repeat split; simpl; try assumption.
+  intros b f. unfold upd. destruct (Nat.eqb b a) eqn:Eb; [|apply Hr3; apply Nat.eqb_neq; exact Eb].
+  rewrite He3. rewrite !write_fields_spec. rewrite lb_merged.
+  destruct (last_binding f fs) as [v|]; [reflexivity|].
+  unfold m3 at 2. rewrite (quiet_regs_block orc a between Hq). simpl. rewrite upd_same. rewrite write_fields_spec.
+  unfold m3'. rewrite (quiet_regs_block orc a between Hq).
+  destruct (last_binding f pfs) as [u|] eqn:Eu.
+  - unfold m3. rewrite (env_frame_block orc between) by (exact (vals_avoid_spec _ _ f u Hv (last_binding_In2 _ _ _ Eu))).
+    reflexivity.
+  - destruct HR1 as [_ [Hr1 _]]. apply Hr1.
+Qed.
